@@ -1598,8 +1598,8 @@ Section KeysetReader.
     destruct H as (Hr & Hm). destruct (dr_spec keys aad c0 n) as (sp, r'). cbn [fst snd] in *. subst r'.
     destruct m as [m|]; destruct sp as [[[[k sk] pre] st']|]; try contradiction.
     - destruct Hm as (<- & <- & <- & <-). f_equal.
-      rewrite (dr_reads_matched keys aad ns _ m eq_refl).
+      rewrite (dr_reads_matched keys aad ns (mkDR true (Some m) (usrc u')) m eq_refl).
       apply (reads_sim ureader src urfull read_full flat urfull_flat).
-    - f_equal. apply dr_reads_failed; reflexivity.
+    - f_equal. apply (dr_reads_failed keys aad ns (mkDR true None (usrc u'))); reflexivity.
   Qed.
 End KeysetReader.
